@@ -171,6 +171,39 @@ def rule_mmb_table(prog, root, fixture=False):
             fnames = [f["n"] for f in rec[0]["fields"]]
             fi = fnames.index(field)
             table, fallback = {}, None
+            # (a) the record is returned by a classifying helper: `switch (status) { case K: return Rec{...}; }`
+            basev = strip_all(guard["c"][0])
+            if basev is not None and basev.get("k") == "DeclRefExpr":
+                for v in fn.walk():
+                    if v.get("k") == "VarDecl" and v.get("d") == basev.get("d") and v.get("c"):
+                        call = strip_all(v["c"][0])
+                        while call is not None and call.get("k") == "CXXConstructExpr" and len(call.get("c", [])) == 1:
+                            call = strip_all(call["c"][0])
+                        if call is not None and call.get("k") == "CallExpr":
+                            for t in prog.call_targets(fn, call):
+                                sws = [x for x in t.walk() if x.get("k") == "SwitchStmt"]
+                                if len(sws) != 1:
+                                    continue
+                                from .c08 import _switch_handlers
+                                hs = _switch_handlers(t, sws[0])
+                                for lab, stmts in hs.items():
+                                    val = None
+                                    for st in stmts:
+                                        for x in walk(st):
+                                            if x.get("k") == "ReturnStmt" and x.get("c") and val is None:
+                                                row = strip_all(x["c"][0])
+                                                for _ in range(4):
+                                                    if row is not None and row.get("k") in ("CXXConstructExpr", "CXXFunctionalCastExpr",
+                                                                                            "CXXTemporaryObjectExpr") and len(row.get("c", [])) == 1:
+                                                        row = strip_all(row["c"][0])
+                                                if row is not None and row.get("k") == "InitListExpr" and len(row.get("c", [])) > fi:
+                                                    val = folded(row["c"][fi])
+                                    if val is None:
+                                        continue
+                                    if lab == "default":
+                                        fallback = val
+                                    else:
+                                        table[lab] = val
             for gl in prog.globals.values():
                 gt = notpl((gl.get("ct") or gl.get("t") or "").replace("const ", ""))
                 if rec_t.split("::")[-1] not in gt or not gl.get("init"):
